@@ -918,6 +918,48 @@ func (pe *PEngine) postOf(fn *ssa.Function) *postCond {
 	}
 	pc.okConds = commonConds(fn, okBlocks)
 	pc.falseConds = commonConds(fn, falseBlocks)
+	// return a && b: the result is a merge of constants false and the value of b on one edge. A true result
+	// came through that edge, so besides the conditions leading there b itself was true (and dually for a || b)
+	if isBool {
+		for _, b := range fn.Blocks {
+			ret, ok := b.Instrs[len(b.Instrs)-1].(*ssa.Return)
+			if !ok {
+				continue
+			}
+			ph, ok := ret.Results[0].(*ssa.Phi)
+			if !ok || ph.Block() != b {
+				continue
+			}
+			for _, want := range []bool{true, false} {
+				computed := -1
+				okShape := true
+				for i, e := range ph.Edges {
+					if c, isC := e.(*ssa.Const); isC && c.Value != nil && c.Value.Kind() == constant.Bool {
+						if constant.BoolVal(c.Value) == want {
+							okShape = false // a constant edge gives the result too
+						}
+						continue
+					}
+					if computed >= 0 {
+						okShape = false
+					}
+					computed = i
+				}
+				// only when this is the function's one return that can yield the value
+				others := okBlocks
+				if !want {
+					others = falseBlocks
+				}
+				if okShape && computed >= 0 && len(others) == 1 && others[0] == b.Preds[computed] {
+					if want {
+						pc.okConds = append(pc.okConds, condAt{ph.Edges[computed], true})
+					} else {
+						pc.falseConds = append(pc.falseConds, condAt{ph.Edges[computed], false})
+					}
+				}
+			}
+		}
+	}
 	pc.valid = true
 	return pc
 }
